@@ -699,8 +699,13 @@ def gen_configs(a, count, rng):
         strict = rng.random() < 0.7
         bounds = [rng.choice(BOXES) for _ in range(dim)]
         if kind == "lattice":
-            if rng.random() < 0.25:
-                nbins = rng.choice([2, 3, 4, 6])
+            if rng.random() < 0.25 or k % 24 in (2, 14):
+                # an integer number of members: the lattice chooses the layout itself (randomly_bin); primes included,
+                # and every 12th lattice configuration is a prime in 2 or 3 dimensions (layouts 1 x .. x N only)
+                nbins = rng.choice([2, 3, 4, 5, 6, 7]) if k % 24 not in (2, 14) else (5 if k % 24 == 2 else 7)
+                if k % 24 in (2, 14) and dim == 1:
+                    dim = 2 if k % 24 == 2 else 3
+                    bounds = [rng.choice(BOXES) for _ in range(dim)]
                 n = nbins
             else:
                 while True:
